@@ -2,7 +2,7 @@
 # apply_repo_patch.sh <patch.diff> <msg-file|"message">: apply one patch to /repo as its own commit
 # after checking that the packages build (with and without the verif/badger tags).
 set -e
-P=$(realpath "$1"); M="$2"
+P=$(realpath "$1"); M="$2"; [ -f "$M" ] && M=$(realpath "$M")
 export GOFLAGS=-mod=mod GOPROXY=off GOSUMDB=off GOTOOLCHAIN=local
 cd /repo
 git apply --check "$P"
